@@ -6,6 +6,7 @@ import (
 	_ "verifharness/props/c03"
 	_ "verifharness/props/c04"
 	_ "verifharness/props/c05"
+	_ "verifharness/props/c06"
 	_ "verifharness/props/c07"
 	_ "verifharness/props/c08"
 	_ "verifharness/props/c09"
@@ -14,6 +15,7 @@ import (
 	_ "verifharness/props/c13"
 	_ "verifharness/props/c15"
 	_ "verifharness/props/c16"
+	_ "verifharness/props/c17"
 	_ "verifharness/props/c19"
 	_ "verifharness/props/c20"
 )
